@@ -44,6 +44,8 @@ SPECS.append({
   H("C13", DB, "Paired2NLPS", "thorough", ["paired", "nonempty"], "same with UseNLP", "relation survives the later stages"),
   H("C13", DB, "Paired2Q", "thorough", ["paired", "nonempty"], "2 commands x 3 shapes, 1-2 query words, two boosted words", "same"),
   H("C13", DB, "Paired2NLPQ", "thorough", ["paired", "nonempty"], "same with UseNLP", "same"),
+  H("C13", DB, "PairedAction", "both", ["paired", "nonempty"], "NLP on; the boosted word is an action / target word of the query (build, find, files, module); factor from the grid {1,1.3,1.5,1.6,1.8,2,3,1e6}", "boost on an already emphasised word never lowers a score"),
+  H("C13", "internal/context", "Analyzer3", "both", ["analysed"], "3 of 14 marker names (types with several markers)", "each project type at most once even when its markers are not adjacent"),
   H("C13", "internal/context", "Analyzer1", "both", ["analysed"], "directory with 0-1 of 42 marker / non-marker names; Makefile = 4 symbolic bytes over {newline : # = . tab a b}; package.json with 1 script", "distinct types, generic iff nothing else, finite boosts >= 1, repeatable"),
   H("C13", "internal/context", "Analyzer2", "thorough", ["analysed"], "2 names, Makefile = 2 symbolic bytes", "same"),
  ],
@@ -122,7 +124,7 @@ SPECS.append({
  "outside_the_claim": ["JSON fidelity for arbitrary query strings", "logs longer than 3 stored entries (covered by the inductive step)"],
  "trusted_base": TB,
  "harnesses": [
-  H("C16", "internal/history", "AnyFile", "both", ["recorded"], "4 file classes; 0..2 stored entries; max_size any int", "recording a search never crashes / never loses the search / respects a sane bound", synctest=True),
+  H("C16", "internal/history", "AnyFile", "both", ["recorded"], "5 file classes (incl. a well-formed document with a wrongly typed field: partial decode + error); 0..2 stored entries; max_size any int", "recording a search never crashes / never loses the search / respects a sane bound", synctest=True),
   H("C16", "internal/history", "Step2", "both", ["stepped", "roundtrip"], "max_size 1..2, 0..max stored entries, one AddEntry, save+load", "reference-log step + round trip", synctest=True),
   H("C16", "internal/history", "Step3", "thorough", ["stepped", "roundtrip"], "max_size 1..3", "same", synctest=True),
   H("C16", "internal/history", "Views2", "both", ["views"], "0..2 entries, limit 0..n+1", "recent / top / stats agree with the entries", synctest=True),
@@ -176,6 +178,8 @@ SPECS.append({
  "harnesses": [
   H("C15", "internal/recovery", "Ladder", "both", ["loaded", "real", "fallback", "tried-once"], "6 main-file states x 4 notebook states x backup present/absent x attempts 1..3 x transient fault length", "usable database, right entries, no futile retries", synctest=True),
   H("C15", "internal/recovery", "LadderDelays", "thorough", ["loaded"], "symbolic base / max delay", "waits bounded by the maximum and non-decreasing", synctest=True),
+  H("C15", "internal/recovery", "LadderGrid", "both", ["loaded"], "back-off factor from {1,1.5,2,1e3,1e6,1e9}, first wait from {1ns,100ms,2^40ns}, cap from {1ns,5s,2^40ns}, 1-4 attempts", "waits bounded and non-decreasing when the product leaves the int64 range", synctest=True),
+  H("C15", "internal/recovery", "LadderFactor", "thorough", ["loaded"], "symbolic back-off factor in [1,1e9], symbolic base / max delay, 1-3 attempts, damaged main file", "waits bounded and non-decreasing for any factor (math.Pow uninterpreted with monotonicity axioms)", synctest=True),
   H("C15", "internal/recovery", "Ladder4", "thorough", ["loaded", "real", "fallback", "tried-once"], "attempts 1..4, 6 notebook states", "same", synctest=True),
  ],
  "manifest": {"text": "Bounded symbolic model checking of the loader's retry / fallback ladder over a file-system fault model; fault kinds, transient-fault length and retry configuration are explored exhaustively within the bound, delays symbolically.",
@@ -197,6 +201,8 @@ SPECS.append({
   H("C20", DB, "EndToEnd2NLP", "both", ["compared", "nonempty"], "2 letters; NLP + fuzzy", "same ranked answer"),
   H("C20", DB, "EndToEnd3", "thorough", ["compared", "nonempty"], "3 letters", "same"),
   H("C20", DB, "EndToEnd5NLP", "thorough", ["compared", "nonempty"], "2+2 letters, NLP", "same"),
+  H("C20", DB, "Sentence", "both", ["stages"], "2 sentences of 28-35 letters with context clues, every case mask (one mask bit per letter)", "context-clue detection ignores case"),
+  H("C20", DB, "StopWords", "both", ["compared", "nonempty"], "command texts with capitalised stop words; 2 sentences, every case mask; NLP re-ranking", "TF-IDF side ignores case"),
   H("C20", "internal/validation", "Whitespace", "both", ["compared"], "two words of printable non-meta ASCII; pads of 0-2 symbolic whitespace bytes", "padding never changes the searched query"),
  ],
  "manifest": {"text": "Relational bounded symbolic model checking: the query and an arbitrary case re-spelling share one symbolic byte vector (mask bits), compared at every consumer of the query and end to end.",
@@ -278,6 +284,7 @@ SPECS.append({
   H("C18", "internal/metrics", "Monitor", "both", ["monitored"], "0-2 searches, 0-2 database operations, flags symbolic", "totals equal events"),
   H("C18", "internal/metrics", "Monitor3", "thorough", ["monitored"], "3 + 3 events", "same"),
   H("C18", "internal/metrics", "MonitorSameIdentity", "both", ["monitored"], "same (operation, success) twice, every tag order", "one identity, one series"),
+  H("C18", "internal/metrics", "PercentileGrid", "both", ["observed"], "1-3 observations into chosen buckets; percentile grid 0..100 incl. end points", "monotone percentiles on the grid"),
   H("C18", "internal/metrics", "Histogram1", "thorough", ["observed"], "0-1 symbolic observation, default buckets, symbolic percentiles", "count / sum / buckets / monotone percentiles", timeout_ms=600000),
   H("C18", "internal/metrics", "Histogram2B", "thorough", ["observed"], "1-2 observations, 3 symbolic ascending buckets", "same", timeout_ms=600000),
  ],
@@ -302,6 +309,7 @@ SPECS.append({
   H("C19", "internal/embedding", "LoadCmds8", "both", ["rejected", "loaded"], "command-embedding file of 0-8 symbolic bytes", "same"),
   H("C19", "internal/embedding", "LoadCmds12", "both", ["rejected"], "12 symbolic bytes", "same"),
   H("C19", "internal/embedding", "LoadMissing", "both", ["rejected"], "missing files", "errors, not crashes"),
+  H("C19", DB, "StageSpecial", "both", ["boosted"], "1-dimensional vectors drawn from {1,-1,0,0.5,NaN,+Inf,3e38}; 3 results", "NaN / infinite embedding values never corrupt scores or order"),
   H("C19", DB, "Absent", "both", ["boosted"], "no index / index without vectors for the query; symbolic query", "feature strictly optional"),
  ],
  "manifest": {"text": "Bounded symbolic execution of the binary loaders over symbolic file bytes with an allocation-size obligation at every input-sized make; relational check that the semantic stage is inert without data; syntactic (hash-consed) bit-symmetry of cosine.",
